@@ -674,6 +674,7 @@ func runSched(c *Ctx) {
 	n := c.Pick(350, 5000)
 	sched := c.Pick(2, 4)
 	evTotal := 0
+	hangs := 0
 	for i := 0; i < n; i++ {
 		cyclic := i%(c.Pick(400, 250)) == 59
 		var d schedCase
@@ -694,6 +695,9 @@ func runSched(c *Ctx) {
 				d.Jitter = []int64{50, 300, 1000, 3000}[c.Rng.Intn(4)]
 			}
 			cl, il, o := evalSched(d)
+			if o.hang && !d.Hang {
+				hangs++
+			}
 			evTotal += len(o.events)
 			kinds := map[string]bool{}
 			for _, e := range o.events {
@@ -710,6 +714,12 @@ func runSched(c *Ctx) {
 				c.Distinct(schedKey(d, o))
 			}
 			c.Emit(cl, il, d)
+		}
+		if hangs >= 3 {
+			// every hanging case costs the full time-out: three unexpected hangs are verdict enough
+			// (each is reported with its replay); stop generating so that the check ends in time
+			c.Hit("stopped-after-3-hangs")
+			break
 		}
 	}
 	// cycles through a run: once / when_changed task: the reference waits for its own ancestor
